@@ -153,7 +153,8 @@ def acc_name(kind, detail):
     if kind == 'u':
         return 'u:line:%s:%d' % (detail[1], detail[2])
     if isinstance(detail, str):
-        return {('r', '_v_cooked'): 'rc', ('w', '_v_blocks'): 'wb', ('w', '_v_cooked'): 'wc', ('r', '_v_blocks'): 'rb'}.get(
+        return {('r', '_v_cooked'): 'rc', ('w', '_v_blocks'): 'wb', ('w', '_v_cooked'): 'wc', ('r', '_v_blocks'): 'rb',
+                ('d', '_v_cooked'): 'dc'}.get(
             (kind, detail), kind + ':' + detail)
     return '%s:%s#%d.%s' % (kind, detail[0], detail[2], detail[1])
 
